@@ -37,14 +37,14 @@ func (a addr) Network() string { return "fake" }
 func (a addr) String() string  { return string(a) }
 
 type conn struct {
-	w          *mc.World
-	name       string
-	in         chan []byte   // peer -> session; closed by the peer = peer close
-	closedCh   chan struct{} // closed by Close()
-	closed     int           // number of Close calls
-	buf        []byte
-	peerGot    []byte // bytes the peer has received
-	faults     bool   // injected read/write faults enabled
+	w                *mc.World
+	name             string
+	in               chan []byte   // peer -> session; closed by the peer = peer close
+	closedCh         chan struct{} // closed by Close()
+	closed           int           // number of Close calls
+	buf              []byte
+	peerGot          []byte // bytes the peer has received
+	faults           bool   // injected read/write faults enabled
 	writesAfterClose int
 }
 
